@@ -604,9 +604,14 @@ TOL = {
     'identity_r1': (7.402458186063363e-08, 10., 'relative', 'cowat, worst at (4 degC, 21.3 kPa); 3.8e-8 at (349.5 degC, sat)'),
     'identity_r2': (5.663644636954541e-08, 10., 'relative', 'supst, worst at (350 degC, sat(350))'),
     'identity_r3': (1.2756638604291217e-10, 10., 'relative', 'super, worst at (695 kg/m3, 350 degC)'),
+    # the same residual AT the limit states of the lattices (one-sided 4th-order differences, identity_tp_edge):
+    'identity_r1_edge': (2.229420465493478e-07, 10., 'relative', 'cowat, worst at (350 degC, sat(350))'),
+    'identity_r2_edge': (5.561600513700015e-08, 10., 'relative', 'supst, worst at (590 degC, 100 MPa)'),
     # --- C15 (b): the same identity for the IFC-67 routines (multiplier 10) -----------------------------------
-    'identity67_cowat': (1.802751912773274e-07, 10., 'relative', 't2thermo.cowat, worst at (349.5 degC, sat(349.5))'),
+    'identity67_cowat': (1.8155759104526315e-07, 10., 'relative', 't2thermo.cowat, worst at (349.5 degC, sat(349.5))'),
     'identity67_supst': (1.1757646346360867e-06, 10., 'relative', 't2thermo.supst, worst at (350 degC, 16.53 MPa)'),
+    'identity67_cowat_edge': (1.1150147293862156e-06, 10., 'relative', 't2thermo.cowat at limit states, worst at (350 degC, sat97(350))'),
+    'identity67_supst_edge': (3.393743937603148e-09, 10., 'relative', 't2thermo.supst at limit states, worst at (594 degC, 100 MPa)'),
     # C15 (c) tsat(sat(t)) = t uses the fixed 1e-6 degC of DESIGN.md (checks/c15.py TSAT_TOL); measured worst
     # under the F10 remedy: 2.68e-10 degC at 364.5 degC.
 }
@@ -678,18 +683,18 @@ BAND = {
     # cmp_sat: (sat67 - sat97) / sat97, 10 degC bands.  Steam bands are split at p = 0.1 * (upper pressure limit
     # of the isotherm).  DESIGN.md planned "worst x 3"; the signed bands are tighter and were preferred.
     'cmp_cowat_density@T0-50': (-7.63421e-05, 0.000414344, 'min at t=0.01 p=16022177.980704544; max at t=8.0 p=100000000.0'),
-    'cmp_cowat_density@T50-100': (-0.000242075, 0.000308543, 'min at t=100.0 p=101417.97792131016; max at t=100.0 p=100000000.0'),
-    'cmp_cowat_density@T100-150': (-0.000291216, 0.000505888, 'min at t=127.0 p=246877.62936203848; max at t=150.0 p=100000000.0'),
-    'cmp_cowat_density@T150-200': (-0.000252501, 0.000514042, 'min at t=151.0 p=489000.0412720645; max at t=161.0 p=100000000.0'),
+    'cmp_cowat_density@T50-100': (-0.000242077, 0.000308543, 'min at t=100.0 p=101325.26197136242; max at t=100.0 p=100000000.0'),
+    'cmp_cowat_density@T100-150': (-0.000291218, 0.000505888, 'min at t=127.0 p=246750.8124056093; max at t=150.0 p=100000000.0'),
+    'cmp_cowat_density@T150-200': (-0.000252503, 0.000514042, 'min at t=151.0 p=488897.9527359455; max at t=161.0 p=100000000.0'),
     'cmp_cowat_density@T200-250': (-3.57228e-05, 0.000517897, 'min at t=250.0 p=100000000.0; max at t=250.0 p=26637023.0843874'),
     'cmp_cowat_density@T250-300': (-0.00058822, 0.000566808, 'min at t=300.0 p=100000000.0; max at t=274.0 p=26015310.074367'),
     'cmp_cowat_density@T300-350': (-0.0022989, 0.000466549, 'min at t=350.0 p=100000000.0; max at t=301.0 p=34118140.1373148'),
     'cmp_cowat_energy@T0-50': (-214.199, 531.047, 'min at t=22.0 p=100000000.0; max at t=0.01 p=100000000.0'),
     'cmp_cowat_energy@T50-100': (-97.0276, 58.7254, 'min at t=51.0 p=25532676.73071563; max at t=100.0 p=100000000.0'),
-    'cmp_cowat_energy@T100-150': (-101.888, 59.6263, 'min at t=150.0 p=476101.38108149206; max at t=106.0 p=100000000.0'),
-    'cmp_cowat_energy@T150-200': (-102.245, 112.561, 'min at t=153.0 p=515636.74027719203; max at t=200.0 p=61017662.979553476'),
-    'cmp_cowat_energy@T200-250': (-19.4056, 198.033, 'min at t=201.0 p=1587677.8995247686; max at t=247.0 p=48591808.08232278'),
-    'cmp_cowat_energy@T250-300': (-340.743, 289.857, 'min at t=300.0 p=100000000.0; max at t=300.0 p=8592691.99792975'),
+    'cmp_cowat_energy@T100-150': (-101.888, 59.6263, 'min at t=150.0 p=475996.8620466946; max at t=106.0 p=100000000.0'),
+    'cmp_cowat_energy@T150-200': (-102.245, 112.561, 'min at t=153.0 p=515539.9028772073; max at t=200.0 p=61017662.979553476'),
+    'cmp_cowat_energy@T200-250': (-19.4064, 198.033, 'min at t=201.0 p=1587457.4430488143; max at t=247.0 p=48591808.08232278'),
+    'cmp_cowat_energy@T250-300': (-340.743, 289.931, 'min at t=300.0 p=100000000.0; max at t=300.0 p=8587708.329557277'),
     'cmp_cowat_energy@T300-350': (-3625.06, 1255.55, 'min at t=350.0 p=100000000.0; max at t=350.0 p=25343704.41732143'),
     'cmp_sat@T0-10': (-0.000974591, -0.000674561, 'min at t=10.0; max at t=0.01'),
     'cmp_sat@T10-20': (-0.00113423, -0.000976724, 'min at t=20.0; max at t=10.1'),
